@@ -253,7 +253,21 @@ func (g *c09Gen) leafNum() *c09Node {
 			v = new(big.Int).SetBytes(append([]byte{byte(1 + r.Intn(255))}, r.Bytes(8+r.Intn(10))...))
 		}
 	}
-	return g.leafNode(kind, v.String(), c09NumVal(v))
+	return g.leafNode(kind, g.numText(v), c09NumVal(v))
+}
+
+// numText: the literal, or (1 in 3) a subtraction of two 24-digit literals that evaluates to the same number as a
+// big integer — the representation that numbers taken from binaries and decode values have (.size, .start,
+// tonumber); fast paths that look at the Go type see a different type for the same value (seed C09-F)
+func (g *c09Gen) numText(v *big.Int) string {
+	if g.r.Intn(3) != 0 {
+		return v.String()
+	}
+	base, _ := new(big.Int).SetString("100000000000000000000000", 10)
+	if v.CmpAbs(base) >= 0 {
+		return v.String()
+	}
+	return "(" + base.String() + " - " + new(big.Int).Sub(base, v).String() + ")"
 }
 
 func (g *c09Gen) leafBad() *c09Node {
@@ -290,7 +304,7 @@ func (g *c09Gen) leaf(member bool) *c09Node {
 	if member {
 		// only legal position of a negative number: an array member that must be rejected
 		v := int64(-1 - r.Intn(300))
-		return g.leafNode("int-negative", fmt.Sprint(v), c09IntVal(v))
+		return g.leafNode("int-negative", g.numText(big.NewInt(v)), c09IntVal(v))
 	}
 	return g.leafHex()
 }
